@@ -30,7 +30,7 @@ impl<'a> Visitor for V<'a> {
                 return Err(format!("{d}: size() = {} but the encoding has {} bytes", post.size, post.enc.len()));
             }
         }
-        if matches!(cx.fam(), FamId::Var | FamId::Wide | FamId::Tiny | FamId::Mid | FamId::Nano | FamId::Big) {
+        if matches!(cx.fam(), FamId::Var | FamId::Wide | FamId::Tiny | FamId::Mid | FamId::Nano | FamId::Big | FamId::Clash) {
             return Ok(()); // exact refusal is claimed for 64-byte signatures only
         }
         if let Some(op) = cx.op {
@@ -240,6 +240,38 @@ impl Property for C09 {
                 })
             })
         });
+        // updates whose result is SMALLER in one part and bigger in another: a sequence number that gets
+        // shorter (set_seq from 2^56 to 1) while a signer of the other CombinedKey variant adds its key entry,
+        // removals of absent keys under such a signer, at every filler length around the limit
+        let cross = [FamId::CombinedEd, FamId::CombinedSecp, FamId::K256].into_iter().flat_map(move |fam| {
+            let own = crate::keys::pool().of(fam.scheme());
+            let keys = vec![Secret(own[own.len() - 1]), Secret(crate::keys::pool().secp[4 % crate::keys::pool().secp.len()])];
+            let alt = if fam == FamId::K256 { vec![] } else { vec![1] };
+            let fills: Vec<usize> = if quick { (120..=200).step_by(1).collect() } else { (60..=230).collect() };
+            fills.into_iter().flat_map(move |l| {
+                let keys = keys.clone();
+                let alt = alt.clone();
+                [
+                    (1u64 << 56, Op::SetSeq { seq: 1, k: 1 }),
+                    (1u64 << 56, Op::SetSeq { seq: 1, k: 0 }),
+                    (65536, Op::SetSeq { seq: 255, k: 1 }),
+                    (127, Op::RemoveKey { key: b"absent".to_vec(), k: 1 }),
+                    (255, Op::RemovePort { which: PortKey::Tcp6, k: 1 }),
+                    (1u64 << 32, Op::SetPort { which: PortKey::Udp, port: 1, k: 1 }),
+                ]
+                .into_iter()
+                .map(move |(seq, op)| {
+                    Case::Hist(History {
+                        fam,
+                        keys: keys.clone(),
+                        init: Init::Decoded { seq, pairs: vec![(b"zz".to_vec(), rlp::encode_str(&vec![0x7a; l]))] },
+                        ops: vec![op],
+                        fault_at: None,
+                        alt_keys: alt.clone(),
+                    })
+                })
+            })
+        });
         let ex = [FamId::K256, FamId::Var].into_iter().flat_map(move |f| history::exhaustive(f, if quick { 1 } else { 2 })).chain(history::depth1_rest(&[FamId::K256, FamId::Var])).chain(history::long_repeats(quick)).map(Case::Hist);
         // custom scheme with long signatures: every signature length class 64..=322 through the builder
         // (tiny content: the outer header grows by two bytes once the signature is included) and one update
@@ -279,7 +311,7 @@ impl Property for C09 {
             }
             v.into_iter()
         });
-        Box::new(it.chain(ex).chain(wide).chain(mid))
+        Box::new(it.chain(cross).chain(ex).chain(wide).chain(mid))
     }
     fn fuzz_plans(&self) -> Vec<(&'static str, u64)> {
         vec![("history", 10000)]
